@@ -143,9 +143,10 @@ pub fn hostile_mutate(scene: &mut Scene, r: &mut Rng, cover: &mut crate::Cover) 
                             p.push(Record { name: n, data_type: dt });
                         }
                         2 => {
-                            tag = "angle-integer";
+                            let which = r.usize(3);
+                            tag = ["angle-integer:both", "angle-integer:azimuth", "angle-integer:elevation"][which];
                             for x in p.iter_mut() {
-                                if x.name == SphericalAzimuth || x.name == SphericalElevation {
+                                if (x.name == SphericalAzimuth && which != 2) || (x.name == SphericalElevation && which != 1) {
                                     x.data_type = RecordDataType::Integer { min: -3, max: 3 };
                                 }
                             }
@@ -604,7 +605,21 @@ pub fn run(a: &Args, rep: &mut Reporter) {
                 }
             }
         }
-        let dev = Dev::empty();
+        let mut dev = Dev::empty();
+        let mut prefill: Option<Vec<u8>> = None;
+        if mode == "c10" && idx % 53 == 17 {
+            // a device that already holds something (1 byte ... a whole old file): the documented answer is an
+            // error from E57Writer::new that leaves the device alone; anything else must still read back
+            let n = *r.pick(&[1usize, 47, 48, 1023, 1024, 1025, 4096, 10_000]);
+            let b = r.bytes(n);
+            dev = Dev::new(b.clone());
+            prefill = Some(b);
+            cover.hit("hostile:device-not-empty");
+        }
+        if mode == "c10" && idx % 59 == 23 {
+            scene.guid = String::new();
+            cover.hit("hostile:file-guid-empty");
+        }
         // one program in eight runs over a device that shortens every transfer (reads during page
         // reloads and writes): content and file must not depend on it
         let chunked = idx % 8 == 5;
@@ -636,6 +651,14 @@ pub fn run(a: &Args, rep: &mut Reporter) {
         }
         rep.viols(idx, &run.violations);
         let bytes = dev.bytes();
+        if let Some(pre) = &prefill {
+            if !run.new_ok {
+                cover.hit("hostile:device-not-empty:rejected");
+                if &bytes != pre {
+                    rep.violation("C10", "rejected-device-modified", idx, &format!("E57Writer::new refused a device holding {} bytes but changed it (now {} bytes)", pre.len(), bytes.len()));
+                }
+            }
+        }
         if run.finalized {
             rep.stat("finalized", 1);
             let n_pts: usize = run.pcs.iter().map(|p| p.points.len()).sum();
